@@ -59,9 +59,27 @@ def run(ctx):
     # inside preliminary_verify
     ctx.r1('a', PRELIM, Sink('check_indices(per signature)', CHECK_INDICES, 'ok', per_item=True))
     ctx.r1('a', PRELIM, Sink('verify_leaves_membership_from_batch_path', MEMBERSHIP, 'ok'))
-    ctx.guard_gate('a', PRELIM, 'index count == number of unique indices',
-                   lambda g: has(g.a_orig | g.b_orig, 'call:std::collections::hash::set::HashSet::len'),
-                   {'eq'}, key='preliminary_verify:unique')
+    # no index twice: the count is compared with the size of the set of indices, or the `false` returned by HashSet::insert for a
+    # repeated index (directly, or through a flag it sets) makes success unreachable
+    pf_ = ctx.try_fn('a', PRELIM)
+    if pf_ is not None:
+        from core import glob_match as _gm
+        from engine import track_result as _tr, success_reachable as _sr
+        ok_a = ctx.quiet_gate(pf_, lambda g: has(g.a_orig | g.b_orig, 'call:std::collections::hash::set::HashSet::len'), {'eq'})[0]
+        pb_ = pf_.body
+        ins = [c for c in pb_.calls() if any(_gm('std::collections::hash::set::HashSet::insert', n) or _gm('std::collections::btree::set::BTreeSet::insert', n) for n in c.names())]
+        ok_b = bool(ins)
+        for c in ins:
+            t_ = _tr(pb_, c.dest[0], +1, 'bool')
+            starts_ = [b_ for _, b_ in t_.fail_edges]
+            if not starts_ or _sr(pb_, set(), 'ok', starts=starts_):
+                ok_b = False
+        inst_u = 'ConcatenationProof::preliminary_verify: index count == number of unique indices'
+        if ok_a or ok_b:
+            R.ok('a', 'R6', inst_u, 'count compared with the set size' if ok_a else 'a repeated index (insert == false) cannot reach success', pf_.loc())
+        else:
+            R.violation('a', 'R6', inst_u, 'preliminary_verify:unique', 'no equality guard between the index count and the set size gates success, and success is reachable from the '
+                        '`false` outcome of HashSet::insert (%d insert site(s))' % len(ins), pf_.loc())
     ctx.guard_gate('a', PRELIM, 'index count >= k',
                    between(['call:std::collections::hash::set::HashSet::insert', 'call:*::len', 'pty:SingleSignatureForConcatenation.indexes', 'lty:SingleSignatureForConcatenation.indexes', 'const:*'], ['pty:Parameters.k']),
                    {'eq', 'gt'}, key='preliminary_verify:quorum')
@@ -143,35 +161,38 @@ def run(ctx):
                           with_verify_args=False)
     bv = ctx.try_fn('g', BATCH_VERIFY_AGGS)
     if bv is not None:
+        from props.shared import closure_agg_sites
         body = bv.body
+        fam = list(bv.family())
         av = [c for c in body.calls() if any(glob_match('*::aggregate_verify', n) for n in c.names())]
-        m1 = [c for c in body.calls() if any(glob_match('blst::p1_affines::mult', n) or glob_match('*p1_affines*::mult', n) for n in c.names())]
-        m2 = [c for c in body.calls() if any(glob_match('blst::p2_affines::mult', n) or glob_match('*p2_affines*::mult', n) for n in c.names())]
+        m1 = [(g, c) for g in fam for c in g.body.calls() if any(glob_match('blst::p1_affines::mult', n) or glob_match('*p1_affines*::mult', n) for n in c.names())]
+        m2 = [(g, c) for g in fam for c in g.body.calls() if any(glob_match('blst::p2_affines::mult', n) or glob_match('*p2_affines*::mult', n) for n in c.names())]
         problems = []
         if not av:
             problems.append('no aggregate_verify call')
         if not m1 or not m2:
             problems.append('signatures weighted at %d site(s), keys at %d' % (len(m1), len(m2)))
         else:
-            d1 = flows_forward(body, {c.dest[0] for c in m1})
-            d2 = flows_forward(body, {c.dest[0] for c in m2})
-            from_sigs = flows_forward(body, {3})
+            def starts_in_main(ms):
+                st = set()
+                for g, c in ms:
+                    if g is bv:
+                        st.add(c.dest[0])
+                    else:
+                        # the weighting sits in a closure (map / unzip ...): what the closure produces flows out of the call it is given to
+                        st |= {cl_local for (pg, cl_local, caps) in closure_agg_sites(fam, g) if pg is bv}
+                return st
+            d1 = flows_forward(body, starts_in_main(m1))
+            d2 = flows_forward(body, starts_in_main(m2))
             for c in av:
                 locs = [a[1][0] for a in c.args if a[0] in ('copy', 'move')]
                 if not locs or locs[0] not in d1:
                     problems.append('the signature checked by aggregate_verify is not the sum of the weighted member signatures')
                 if not any(l in d2 for l in locs[1:]):
                     problems.append('the keys given to aggregate_verify are not the weighted member keys')
-            for c in m1 + m2:
-                sc = c.args[1]
-                og = fn_origins(bv, sc, True)
-                if not has(og, 'call:*::finalize'):
-                    problems.append('a weight (line %d) is not a hash output' % c.line)
-                elif not (sc[0] in ('copy', 'move') and sc[1][0] in from_sigs):
-                    problems.append('the weights (line %d) do not depend on the signatures of the batch' % c.line)
             # the same weight multiplies the key and the signature of a member
-            s1 = {frozenset(o for o in fn_origins(bv, c.args[1], False)) for c in m1}
-            s2 = {frozenset(o for o in fn_origins(bv, c.args[1], False)) for c in m2}
+            s1 = {frozenset(o for o in fn_origins(g, c.args[1], False)) for g, c in m1}
+            s2 = {frozenset(o for o in fn_origins(g, c.args[1], False)) for g, c in m2}
             if s1 != s2:
                 problems.append('keys and signatures are not multiplied by the same weights')
         inst = 'BlsSignature::batch_verify_aggregates: every member (key, signature) is multiplied by a weight hashed from the batch before the sum is checked'
